@@ -7,17 +7,19 @@ META = dict(
         'clang 14 front end (AST of the instantiated templates)', 'engine/cxx2c.py (C++ AST -> C rendering; translation validation agrees on random inputs for all three insts)',
         'cbmc 6.11.0 / goto-instrument --dfcc (contract instrumentation and replacement, SAT back end)',
         'C model of std::array<T,N> ({_M_elems[N]}) for hybrid_ndarray',
+        'bounded C model of std::vector ({_M_elems[8], _M_size}; resize value-initialises new cells; growing past 8 is an assertion failure of the model) for dynamic_ndarray',
         'entry wrappers build the ndarray from plain components (inst/c20*.cpp put4/put6, verif_nd_mk / verif_ndc_mk, themselves under contract)',
     ],
     assumptions=[
         'UF mode: unsigned long * is an uninterpreted function constrained by the axioms in models/prelude.h (each a theorem of machine arithmetic)',
         'ghost traces PP / HP (folds of product / stride over a shape) are functional definitions assumed in the precondition (row-major units) or in the unit harness for the helper-contract units; unit nd.mk assumes them for the default shape (1) in its harness (ghost-only assumptions)',
         'representation invariants of the bounded vectors (size_ <= capacity) are preconditions (C19)',
+        'dynamic_ndarray units: prior state arbitrary (members stored directly), request limited to <= 8 dimensions and product <= 8 (capacity of the vector model); glue loops of the wrappers (verif_to_lv / verif_to_sv, trip count <= 8) unwound completely',
         'configuration: -DNDEBUG, STL enabled',
     ],
     not_covered=[
         'the other ndarray_t kinds: fixed buffer, fixed / clipped / constant shape, dynamic (std::vector) buffer or shape; the clipped-shape checks in resize still run after data_.resize',
-        'legacy fixed_ndarray and dynamic_ndarray (resize / operator=); hybrid_ndarray copy/assign and other ranks',
+        'legacy fixed_ndarray; dynamic_ndarray: construction from an array / operator= (resize is covered for <= 8 dimensions and <= 8 elements: std::vector is a bounded C model of capacity 8); hybrid_ndarray copy/assign and other ranks',
         'copy / assignment of the column-major instantiation',
         'cast / cast_kind, mutable views (mutable_slice / reshape / flatten / ref), element access operator() (C02)',
         'extents whose product exceeds 2^64 (resize((2^32,2^32)) is accepted with 0 elements: modular product)',
@@ -48,5 +50,8 @@ UNITS = [
     # ---- legacy hybrid_ndarray<float,6,2> (inst c20h): products uninterpreted (bit-precise 64-bit multiply times out), constant-trip helper loops unwound
     Unit('hy.default', 'c20h', 'verif_hy_default', mode='uf', unwind=10, unwind_loops=HYL, clause='hybrid_ndarray: default construction establishes the invariant'),
     Unit('hy.resize', 'c20h', 'verif_hy_resize', mode='uf', unwind=10, unwind_loops=HYL, clause='hybrid_ndarray: accepted resize: invariant and shape == argument; refused: whole object unchanged'),
+    Unit('dy.resize_sv', 'c20d', 'verif_dy_resize_sv', mode='uf', unwind=10, unwind_loops={'verif_to_': 10}, clause='dynamic_ndarray: resize(index array) leaves shape == argument, strides == row-major strides, numel == data.size() == product'),
+    Unit('dy.resize_lv', 'c20d', 'verif_dy_resize_lv', mode='uf', unwind=10, unwind_loops={'verif_to_': 10}, clause='dynamic_ndarray: resize(std::vector) likewise'),
+    Unit('dy.resize_2', 'c20d', 'verif_dy_resize_2', mode='uf', unwind=10, unwind_loops={'verif_to_': 10}, clause='dynamic_ndarray: resize(n0,n1) likewise'),
     Unit('hy.resize2', 'c20h', 'verif_hy_resize2', mode='uf', unwind=10, unwind_loops=HYL, clause='hybrid_ndarray: resize(n0,n1) overload'),
 ]
